@@ -870,8 +870,10 @@ def p_resp_msg(eng, st, name, args, site, depth, call):
                 return [(how[:-1], y) for y in x[1]]
             if x[0] == "variant" and x[1] == OPTION:
                 return [(how[:-1], x[3][0][1])] if x[2] == "Some" else []
-            if x[0] == "call" and x[1].endswith("Iterator::chain") and len(x[2]) == 2:
+            if x[0] == "call" and (x[1].endswith("Iterator::chain") or x[1] == "extend") and len(x[2]) == 2:
                 return flat(x[2][0]) + flat(x[2][1])
+            if x[0] == "call" and x[1] == "push" and len(x[2]) == 2:
+                return flat(x[2][0]) + [(how[:-1], x[2][1])]
             if x[0] == "call" and x[1] in ("std::iter::once", "core::iter::once") and len(x[2]) == 1:
                 return [(how[:-1], x[2][0])]
             if x[0] == "call" and x[1] in ("std::iter::empty", "core::iter::empty"):
@@ -910,6 +912,22 @@ def p_vec_extend(eng, st, name, args, site, depth, call):
     x = eng.val(st, args[1])
     if cur[0] == "list" and x[0] == "list":
         new = ("list", cur[1] + x[1])
+    else:
+        new = ("call", "extend", (cur, x))
+    if a[0] == "ref":
+        eng.write_loc(st, a[1], a[2], new)
+    return one(st, UNIT)
+
+
+@prim_re(r"^<std::vec::Vec as std::iter::Extend>::extend$|^std::vec::Vec::extend$|^std::vec::Vec::append$")
+def p_vec_extend2(eng, st, name, args, site, depth, call):
+    a = args[0]
+    cur = eng.val(st, a)
+    x = eng.val(st, args[1])
+    if cur[0] == "list" and x[0] == "list":
+        new = ("list", cur[1] + x[1])
+    elif cur == ("list", ()):
+        new = x
     else:
         new = ("call", "extend", (cur, x))
     if a[0] == "ref":
@@ -1064,6 +1082,33 @@ def _iter_loop(eng, st, name, args, site, depth, call):
     fallible = op.startswith("try_")
     clos = args[2] if has_acc else args[1]
     init = eng.val(st, args[1]) if has_acc else UNIT
+    if it[0] == "list" and len(it[1]) <= 8:
+        # a literal sequence ([a, b, c].iter().fold(..)): apply the closure to each element in order
+        states = [(st, init)]
+        for x in it[1]:
+            nxt_states = []
+            for s_, acc in states:
+                if isinstance(acc, tuple) and acc and acc[0] == "__break__":
+                    nxt_states.append((s_, acc))
+                    continue
+                for s2, r in eng.call_value(s_, clos, ([acc, x] if has_acc else [x]), site, depth):
+                    if fallible:
+                        adt = r[1] if r[0] == "variant" else RESULT
+                        for s3, n3, p3 in eng.force_enum(s2, r, adt, site):
+                            if n3 in ("Err", "None"):
+                                nxt_states.append((s3, ("__break__", ERR(p3[0]) if n3 == "Err" else NONE)))
+                            else:
+                                nxt_states.append((s3, eng.val(s3, p3[0]) if has_acc else UNIT))
+                    else:
+                        nxt_states.append((s2, eng.val(s2, r) if has_acc else UNIT))
+            states = nxt_states
+        out = []
+        for s_, acc in states:
+            if isinstance(acc, tuple) and acc and acc[0] == "__break__":
+                out.append((s_, acc[1]))
+            else:
+                out.append((s_, OK(acc) if fallible else acc))
+        return out
     lk = (site[2], ("iter", op, site[1]), st.fresh())
     # captured mutable places
     craw = clos
@@ -1180,6 +1225,14 @@ def p_one(eng, st, name, args, site, depth, call):
     return one(st, ("lit", 1))
 
 
+@prim("std::option::Option::flatten")
+def p_opt_flatten(eng, st, name, args, site, depth, call):
+    out = []
+    for s, n, p in eng.force_enum(st, args[0], OPTION, site):
+        out.append((s, eng.val(s, p[0]) if n == "Some" else NONE))
+    return out
+
+
 @prim("std::option::Option::zip")
 def p_opt_zip(eng, st, name, args, site, depth, call):
     out = []
@@ -1240,6 +1293,17 @@ def p_res_map_or(eng, st, name, args, site, depth, call):
         else:
             out.extend(_call_closure(eng, s, args[1], [p[0]], site, depth))
     return out
+
+
+@prim_re(r"(^|>::|::)Iterator::sum$|Iterator>::sum$")
+def p_iter_sum(eng, st, name, args, site, depth, call):
+    v = eng.val(st, args[0])
+    if v[0] == "list" and v[1]:
+        acc = v[1][0]
+        for x in v[1][1:]:
+            acc = ("bin", "add", acc, x)
+        return one(st, acc)
+    return opaque_call(eng, st, name, args, site, call)
 
 
 @prim("std::iter::Iterator::any", "std::iter::Iterator::all", "std::iter::Iterator::find", "std::iter::Iterator::position",
